@@ -75,12 +75,26 @@ def schema2 : List (Sect User) := [
   { name := bs "*", baseLookup := some byName, setKey := some dynSet, getKey := some dynGet,
     sectionStart := some startLog } ]
 
+/-- the MAIN (first) section is dynamic; a fixed-key section and a wildcard follow -/
+def schema4 : List (Sect User) := [
+  { name := bs "main", setKey := some dynSet, getKey := some dynGet, sectionStart := some startLog },
+  { name := bs "fixed", keys := [k "i" .int 0 (some "5"), k "s" .str 3] },
+  { name := bs "*", baseLookup := some byName, setKey := some dynSet, getKey := some dynGet } ]
+
+/-- the wildcard is the first section: every section name is the main section -/
+def schema5 : List (Sect User) := [
+  { name := bs "*", baseLookup := some byName, setKey := some dynSet, getKey := some dynGet,
+    sectionStart := some startLog },
+  { name := bs "fixed", keys := [k "i" .int 0 (some "5")] } ]
+
 def schemaOf (id : Nat) : Option (List (Sect User) × Option Nat) :=
   match id with
   | 0 => some (schema0, none)
   | 1 => some (schema1, some 1)
   | 2 => some (schema2, some 1)
   | 3 => some (schema1, none)
+  | 4 => some (schema4, some 1)
+  | 5 => some (schema5, some 1)
   | _ => none
 
 /-- pairs listed by `dump` -/
@@ -88,6 +102,8 @@ def dumpList (id : Nat) : List (String × String) :=
   match id with
   | 0 => (mainKeys0.map fun key => ("main", String.ofList (key.name.map fun c => Char.ofNat c.toNat))) ++
          [("two", "s2"), ("two", "i2"), ("baddef", "x"), ("", "k")]
+  | 4 => [("main", "k1"), ("main", "k2"), ("fixed", "i"), ("fixed", "s"), ("a", "k1"), ("zz", "k1")]
+  | 5 => [("a", "k1"), ("b", "k1"), ("main", "k1"), ("fixed", "i")]
   | 2 => [("main", "i"), ("main", "s"), ("wo", "k1"), ("a", "k1"), ("a", "k2"), ("b", "k1"), ("zz", "k1")]
   | _ => [("main", "i"), ("main", "s"), ("main", "abs"), ("two", "s2"), ("two", "t"), ("two", "nr"),
           ("nobase", "x"), ("a", "x"), ("a", "y"), ("b", "x"), ("b", "y"), ("c", "x"), ("zz", "x"),
@@ -97,6 +113,8 @@ def slotList (id : Nat) : List Loc :=
   match id with
   | 0 => [0,1,2,3,4,5,6,7,8,9,10,11,12,13,20,21,30,31].map Loc.abs
   | 2 => [.abs 0, .abs 3]
+  | 4 => [.abs 0, .abs 3]
+  | 5 => [.abs 0]
   | _ => [.rel 1 0, .rel 1 1, .abs 40, .rel 2 0, .rel 2 1, .rel 2 2, .rel 10 0, .rel 10 1,
           .rel 11 0, .rel 11 1, .rel 12 0, .rel 12 1, .abs 41]
 
